@@ -182,10 +182,12 @@ func runC14(p *Prog, l *Ledger) {
 		var bad []string
 		// siblings: other wrappers that are methods of the same receiver type
 		for _, o := range wrappers {
-			if o == w || w.Fn.Signature.Recv() == nil || o.Fn.Signature.Recv() == nil {
+			// siblings: the wrappers of the two directions of a stream (Recv / Send) configured by the same config type.
+			// (Unary client and server interceptors legitimately share one limiter field.)
+			if o == w || w.Dir == "" || o.Dir == "" || w.Dir == o.Dir {
 				continue
 			}
-			if !types.Identical(w.Fn.Signature.Recv().Type(), o.Fn.Signature.Recv().Type()) {
+			if w.LimField.Type == nil || o.LimField.Type == nil || !types.Identical(w.LimField.Type, o.LimField.Type) {
 				continue
 			}
 			if sameField(w.LimField, o.LimField) {
@@ -584,7 +586,15 @@ func c14Wrapper_check(p *Prog, l *Ledger, w *c14Wrapper, consts map[int64]string
 		}
 		// classification
 		matched, hasMatch, respVal := c14Matched(pa, rt)
+		hardCoded := false
 		if hasMatch {
+			respVal = pa.Resolve(respVal, len(pa.Blocks)-1)
+			if k, ok := strip(respVal, false).(*ssa.Const); ok && types.Identical(k.Type(), rt) {
+				// the response type is a constant on this path (a default assigned before an optional classification)
+				hardCoded = true
+			}
+		}
+		if hasMatch && !hardCoded {
 			seenMatch[matched] = true
 			if consts[matched] != c.m {
 				badO4 = append(badO4, fmt.Sprintf("%s: response type %d completes with %s, want %s", p.At(c.ins), matched, c.m, consts[matched]))
@@ -613,6 +623,9 @@ func c14Wrapper_check(p *Prog, l *Ledger, w *c14Wrapper, consts map[int64]string
 			}
 		} else {
 			excl := c14Excluded(pa, rt)
+			if hardCoded {
+				excl = nil
+			}
 			if len(excl) > 0 {
 				var remaining []int64
 				for v := range consts {
@@ -632,6 +645,12 @@ func c14Wrapper_check(p *Prog, l *Ledger, w *c14Wrapper, consts map[int64]string
 					}
 				}
 			} else {
+				if hardCoded {
+					seenMatch[matched] = true
+					if consts[matched] != c.m {
+						badO4 = append(badO4, fmt.Sprintf("%s: response type %d completes with %s, want %s", p.At(c.ins), matched, c.m, consts[matched]))
+					}
+				}
 				// no classification on this path: only an error-free operation may complete as success
 				if c.m != "OnSuccess" {
 					badO4 = append(badO4, fmt.Sprintf("%s: unclassified path completes with %s", p.At(c.ins), c.m))
